@@ -135,7 +135,8 @@ where
         let res: &mut LWE<&mut [u8]> = &mut res.to_mut();
         let other: &LWECompressed<&[u8]> = &other.to_ref();
 
-        assert_eq!(res.lwe_layout(), other.lwe_layout());
+        assert_eq!(res.base2k(), other.base2k());
+        assert_eq!(res.max_k(), other.max_k());
 
         let mut source: Source = Source::new(other.seed);
         self.vec_znx_fill_uniform(other.base2k().into(), &mut res.data, 0, &mut source);
